@@ -72,6 +72,10 @@ def bgd_cases_from_export(exported, quick):
             T["entries"] = [{"name": "fs_main", "stage": "fragment", "params": [], "body": [acc(g_) for g_ in usable[0::2]], "wg": []},
                             {"name": "cs_main", "stage": "compute", "params": [], "body": [acc(g_) for g_ in usable[1::2]], "wg": ["1"]}]
             cases.append({"id": "bgd-%05d-ds" % i, "family": "bgd-export-disjoint-stages-mixed-kinds", "S": T, "opts": opts(validate=("none", "all")[(i // 8) % 2])})
+        if i % 16 == 10:
+            T = bgd_shader(d, use=False, tys=[({"k": "atomic", "s": "u32"} if j == 0 else VEC4) for j in range(len(d))])
+            T["globals"][0]["space"] = "storage_rw"
+            cases.append({"id": "bgd-%05d-at" % i, "family": "bgd-export-bare-atomic-first", "S": T, "opts": opts()})
         if i % 4 == 3:
             # validator on, but no entry point uses the variables: the validator itself does not look at unused variables
             cases.append({"id": "bgd-%05d-vu" % i, "family": "bgd-export-validated-unused", "S": bgd_shader(d), "opts": opts(validate="all")})
@@ -594,6 +598,10 @@ def growth_cases(quick):
         A["globals"].append({"name": "deep", "space": "storage_r", "group": "0", "binding": "0", "ty": {"k": "struct", "name": "Deep"}})
         A["entries"].append({"name": "main", "stage": "compute", "params": [], "wg": ["1"], "body": [{"k": "access", "g": "deep", "how": "addr"}]})
         cases.append(("nested-array-d%d" % d, A))
+    for gno in ("200000000", "4294967295"):
+        Gx = _base([{"name": "far", "space": "uniform", "group": gno, "binding": "0", "ty": VEC4}, {"name": "near", "space": "uniform", "group": "0", "binding": gno, "ty": VEC4}])
+        Gx["entries"].append({"name": "main", "stage": "compute", "params": [], "wg": ["1"], "body": [{"k": "access", "g": "far", "how": "load"}, {"k": "access", "g": "near", "how": "load"}]})
+        cases.append(("far-group-%s" % gno, Gx))
     # many unrelated types declared before the tower (type handles beyond any small fixed-size set)
     for pad, l in [(70, 12), (70, 20), (130, 24), (300, 26)]:
         T = struct_tower(l)
@@ -692,7 +700,7 @@ def io_struct(rng, name, types, n_members, builtins=(), sparse=True, prefix="a")
     locs = rng.sample(range(0, 8 if sparse else n_members), n_members)
     if rng.random() < 0.5:
         locs.sort()
-    mem = [{"name": "%s%d" % (prefix, j), "ty": rng.choice(types), "io": {"k": "loc", "n": locs[j]}} for j in range(n_members)]
+    mem = [{"name": ("_%s%d" if rng.random() < 0.12 else "%s%d") % (prefix, j), "ty": rng.choice(types), "io": {"k": "loc", "n": locs[j]}} for j in range(n_members)]
     for b in builtins:
         mem.insert(rng.randint(0, len(mem)), {"name": "bi_" + b, "ty": {"k": "vec", "n": 4, "s": "f32"} if b == "position" else
                                               {"k": "scalar", "s": "bool"} if b == "front_facing" else
@@ -717,7 +725,7 @@ def host_members(rng, space, inner=None, big_arrays=False):
             if r < 0.5:
                 t = rand_leaf(rng)
             elif r < 0.75:
-                t = {"k": "array", "n": rng.choice([1, 2, 3, 5, 33, 64, 4097] if big_arrays else [1, 2, 3, 5]), "e": rng.choice([rand_leaf(rng), {"k": "array", "n": rng.choice([2, 3]), "e": rand_leaf(rng, allow_mat=False)}])}
+                t = {"k": "array", "n": rng.choice([1, 2, 3, 5, 33, 64, 4097, 8192] if big_arrays else [1, 2, 3, 5]), "e": rng.choice([rand_leaf(rng), {"k": "array", "n": rng.choice([2, 3]), "e": rand_leaf(rng, allow_mat=False)}])}
             elif r < 0.85 and space == "storage_rw":
                 t = rng.choice([{"k": "atomic", "s": "u32"}, {"k": "atomic", "s": "i32"}, {"k": "atomic", "s": "f32"}, {"k": "array", "n": 4, "e": {"k": "atomic", "s": "f32"}}])
             elif inner:
@@ -1380,7 +1388,7 @@ def const_shaders(rng, n_shaders, per=24):
         for j, c in enumerate(sel):
             c["name"] = rng.choice(["C", "k_", "\u03ba", "MAX_", "v\u00e9", "camelCase", "entry_", "source_"]) + str(j)
         # names that resemble items the generator emits itself (but are different identifiers: Rust is case sensitive)
-        special = (["source", "device", "targets"] if i % 3 == 2 else []) + ["entry_fs_main", "push_constant_stages", "Source", "entry_FS_MAIN", "bind_groups_", "fs_main_entry_", "Entry_Fs_Main"]
+        special = (["source", "device", "targets"] if i % 3 == 2 else []) + ["raw", "safe", "gen", "entry_fs_main", "push_constant_stages", "Source", "entry_FS_MAIN", "bind_groups_", "fs_main_entry_", "Entry_Fs_Main"]
         rng.shuffle(special)
         for j, nm_ in enumerate(special[:rng.randint(1, 4)]):
             if j < len(sel):
@@ -1427,6 +1435,11 @@ def override_shaders(rng, n):
                          {"name": "vs_fullscreen", "stage": "vertex", "params": [{"k": "builtin", "name": "vi", "b": "vertex_index"}], "result": {"k": "builtin", "b": "position"}, "body": [], "wg": []},
                          {"name": "fs_main", "stage": "fragment", "params": [], "result": {"k": "loc", "n": 0, "ty": VEC4}, "body": [], "wg": []},
                          {"name": "cs_main", "stage": "compute", "params": [], "body": [], "wg": ["1"]}]}
+        u32s = [o["name"] for o in ovs if o["ty"] == "u32"]
+        if u32s and len(shaders) % 3 == 2:
+            for e in S["entries"]:
+                if e["stage"] == "compute":
+                    e["wg"] = [u32s[0], "2"]
         # other entry sets: compute only, fragment only, no entry point at all, vertex only
         r = len(shaders) % 6
         if r == 1:
